@@ -23,6 +23,8 @@ for cfg in ("A", "B", "C", "D", "R", "X"):
     for c, d in prog.consts.items():
         if c.split("::")[0] in prog.crates and d.get("value") not in (None, "indirect", "slice", "zst"):
             consts.setdefault(c, [d.get("ty"), d.get("value")])
+        elif c.split("::")[0] in prog.crates and d.get("mem"):
+            consts.setdefault(c, [d.get("ty"), "mem:" + ",".join(str(x) for x in d["mem"])])
 json.dump(sorted(paths), open(os.path.join(V, "sa", "known_fns.json"), "w"), indent=0)
 json.dump({"fns": sigs, "adts": adts, "consts": consts}, open(os.path.join(V, "sa", "known_shapes.json"), "w"), indent=0, sort_keys=True)
 print(len(paths), "known function paths;", len(sigs), "signatures;", len(adts), "adts;", len(consts), "consts")
